@@ -297,6 +297,12 @@ static void handle_events(int s, const m_queue_t *evts, int handler_id) {
                 m->src[si].fired--; trig = (size_t)(i + 1) >= eff_batch(s); cur_evrec[i] = new_evrec(e, 3 + kind, -1, key); obs(8000 + kind * 10 + key);
                 if (m->src[si].flags & 2) m->src[si].present = 0;
                 break; }
+            case M_SRC_TYPE_THRESH: {      /* activity thresholds: when they trip is not modelled (wall-clock statistics); the event must belong to a registered threshold of this module, which it uses up */
+                int si = -1;
+                for (int j = 0; j < MAXSRC; j++) if (m->src[j].present && m->src[j].kind == K_THRESH && e->userdata == SRCUPP(s, j)) si = j;
+                if (si < 0) vfail("EV.owner", "EV.owner|thresh", "%s received a threshold event whose user pointer matches none of its threshold sources", m->name);
+                m->src[si].present = 0; trig = (size_t)(i + 1) >= eff_batch(s); cur_evrec[i] = new_evrec(e, 3 + K_THRESH, -1, m->src[si].key); m->life |= 131072;
+                break; }
             default: vfail("EV.type", "EV.type", "%s received an event of unexpected type %d", m->name, e->type);
             }
             if (trig && i < n - 1 && trigger_seen_at < 0) trigger_seen_at = i;
